@@ -193,6 +193,8 @@ def run(ctx):
     # one physical file = one list entry: check counts a location once, edit inserts once
     from .c15 import rule_no_follow
     rule_no_follow(ctx, facts, "C05-R2")
+    from .finder import rule_parse_complete
+    rule_parse_complete(ctx, facts, "C05-R2")
     # ---- R3 verdict --------------------------------------------------------------------------
     P = "C05-R3"
     ch = edit.anchor(ctx, facts, P, edit.CHECK, "check_references")
